@@ -170,6 +170,13 @@ def parseKind (st : State) (j : Nat) (s : String) : Option AddrKind :=
   else if s.startsWith "w" then (nth (s.drop 1).toString).map .wrongPeer
   else none
 
+/-- Kinds of `dialaddr` / `addknown` only: `hn<k>` / `hf<k>` / `hs<k>` = `/dns` / `/dns4` / `/dns6` + `/localhost/tcp/<port of
+listen address k of node j>/p2p/<j>`; everything else as `parseKind`. -/
+def dialKindOk (st : State) (j : Nat) (s : String) : Bool :=
+  if s.startsWith "hn" || s.startsWith "hf" || s.startsWith "hs" then
+    (((s.drop 2).toString.toNat?).filter (· < listenCount st j)).isSome
+  else (parseKind st j s).isSome
+
 def parseKnown (st : State) (part : String) : Option (Nat × List AddrKind) :=
   match part.splitOn ":" with
   | [j, kinds] =>
@@ -372,13 +379,13 @@ def step (st : State) (line : String) : State × String :=
     | some _, some _ => (dialed st echo, echo)
     | _, _ => (st, "bad-op")
   | ["dialaddr", i, j, kind] =>
-    match built st i, (peerIx st j).bind (fun j => parseKind st j kind) with
+    match built st i, (peerIx st j).filter (fun j => dialKindOk st j kind) with
     | some _, some _ => (dialed st echo, echo)
     | _, _ => (st, "bad-op")
   | ["addknown", i, j, kinds] =>
     match built st i, peerIx st j with
     | some _, some j =>
-      if ((kinds.splitOn "+").all fun k => (parseKind st j k).isSome) then ({ st with disturbed := true }, echo) else (st, "bad-op")
+      if ((kinds.splitOn "+").all fun k => dialKindOk st j k) then ({ st with disturbed := true }, echo) else (st, "bad-op")
     | _, _ => (st, "bad-op")
   | ["pubaddr", i, k] =>
     match built st i, tag? k with
